@@ -21,7 +21,8 @@ def run(tier):
             o = os.path.join(wd, "out_%s.json" % cfg)
             conform(cfg, ["codec", tf, o, ck.seed + s, lmax], timeout=3000)
             _merge(ck, json.load(open(o)), "" if cfg == "stable" else "[nightly] ")
-    ck.cov["distinct_nontrivial"] = len(table[0]["cases"]) + 8 * (lmax + 1)
+    if not ck.cov["distinct_nontrivial"]:
+        ck.cov["distinct_nontrivial"] = len(table[0]["cases"]) + 8 * (lmax + 1)
     ck.cov["spec_cases"] = len(table[0]["cases"])
     ck.cov["rule"] = ("%d single-field deviations from Codec.tla (8 objects; every fixed-length field x carrier {byte string, element sequence} x count 0..2N) replayed as hand-built JSON (array / string) and bincode inputs "
                       "for stack and - nightly - locked containers, each with the verdict the spec derives; serde_json and bincode round trips of every object for every payload length 0..%d (decoded object equal, still decrypts/verifies); "
